@@ -171,6 +171,10 @@ class Run(RunBase):
         self.m = Model()
         self.gen_history = []
         self.pending_gen = set()
+        # an independent scenario nobody operates on: state shared by accident between instances (a mutable default
+        # argument, a class attribute) would show up in it
+        self.idle = Scenario(dt=0.1, scenario_id=build.build_scenario_id())
+        self.idle.add_objects(build_obj("lanelet", lanelet_spec(MAX_ID + 50)))
 
     # ---------------------------------------------------------------- preconditions
     def enabled(self, op):
@@ -569,6 +573,15 @@ class Run(RunBase):
         return "ok"
 
     def finish(self):
+        got = sut_abstract(self.idle)
+        if [list(t) for t in got] != [[MAX_ID + 50, "lanelet", None]]:
+            raise Violation("C09/independent-scenario-affected/finish",
+                            f"a second, independent scenario that was never operated on now contains {got}")
+        try:
+            copy.deepcopy(self.idle).add_objects(EnvironmentObstacle(1, ObstacleType.BUILDING, Rectangle(1.0, 1.0)))
+        except ValueError:
+            raise Violation("C09/independent-scenario-affected/finish",
+                            "id 1 is reserved in a second, independent scenario that was never operated on")
         if len(self.gen_history) != len(set(self.gen_history)):
             raise Violation("C09/generated-id-repeated/history", f"generated ids repeat: {self.gen_history}")
 
